@@ -1738,7 +1738,18 @@ def _run_one(fn, prefix, opts):
     except RecursionError as ex:
         status, detail = "error", "RecursionError"
     except Exception as ex:  # a harness bug or an undeclared exception of the code under test
+        origin = _quansino_origin()
         status, detail = "error", f"{type(ex).__name__}: {ex} @ {_where()}"
+        if origin and not _engine_gap(ex):
+            # raised inside quansino's own code on inputs the scenario considers legal: a candidate violation
+            # ("completes without raising"), confirmed -- like every candidate -- by a replay on the real code
+            try:
+                n0 = len(eng.failures)
+                eng.fail("completes-without-raising", info=f"{type(ex).__name__} raised in {origin}")
+                if len(eng.failures) > n0:
+                    status, detail = "ok", None
+            except BaseException:  # noqa: BLE001
+                pass
     vw = None
     try:
         if status == "ok" and not eng.failures and not eng.inconclusive and eng.oblig and opts.get("validate_paths") and _VALIDATION_TAKEN[0] < int(opts.get("validate_paths")):
@@ -1762,6 +1773,24 @@ def _run_one(fn, prefix, opts):
         "reached": sorted(eng.reached),
         "work": eng.work,
     }
+
+
+def _quansino_origin():
+    """file:line:function of the innermost traceback frame if that frame is quansino source (the code under test)."""
+    tb = traceback.extract_tb(__import__("sys").exc_info()[2])
+    if not tb:
+        return None
+    fr = tb[-1]
+    fn = fr.filename.replace("\\", "/")
+    if "/quansino/" in fn and "/qverif/" not in fn:
+        return f"{fn.split('/quansino/', 1)[1]}:{fr.lineno}:{fr.name}"
+    return None
+
+
+def _engine_gap(ex):
+    """Exceptions that come from the proxies meeting a numpy/C routine without a symbolic counterpart."""
+    msg = str(ex)
+    return isinstance(ex, (Unsupported, NotImplementedError)) or (isinstance(ex, TypeError) and any(t in msg for t in ("SR", "SI", "SB", "ufunc", "object arrays", "dtype('O')")))
 
 
 def _where():
